@@ -113,6 +113,9 @@ func (c04) Gen(r *rand.Rand, tier string, run int) *core.Case {
 		c.Params["crowd"] = 1
 		kinds = []string{"slow", "slow", "slow", "echo", "fire", "noarg", "cancel-echo"}
 	}
+	if c.Net.ReadMode != "tiny" && r.IntN(3) == 0 {
+		c.Params["big"] = 1
+	}
 	if r.IntN(3) == 0 {
 		// the generic object features are calls like any other: statistics
 		// and tracing change how an object answers
@@ -263,6 +266,22 @@ func c04op(env *core.Env, a, i int, op core.Op, p probe.ProbeProxy) {
 	tok := probe.Token{Client: int32(a), Seq: int32(i), Nonce: int64(nonce), Text: "t"}
 	key := tokOf(tok).Key()
 	arg := fmt.Sprintf("%s@o%d", key, op.Y)
+	// some arguments are large (beyond any plausible threshold of the write
+	// path); the padding is checked and stripped before the answer is recorded
+	pad := 0
+	if env.C.P("big", 0) == 1 {
+		pad = []int{4095, 4096, 9000, 70000, 0, 0, 0, 0, 0, 0, 0, 0}[nonce>>8%12]
+	}
+	tok.Text = strings.Repeat("p", pad) + "t"
+	tokOf := func(ret probe.Token) ref.Token {
+		if len(ret.Text) > pad && strings.Count(ret.Text[:pad], "p") == pad {
+			ret.Text = ret.Text[pad:]
+		}
+		return ref.Token{Client: ret.Client, Seq: ret.Seq, Nonce: ret.Nonce, Text: ret.Text}
+	}
+	if pad > 0 {
+		env.Probe("large-arguments")
+	}
 	switch op.Kind {
 	case "echo":
 		h := env.Invoke(a, "echo", arg)
